@@ -1296,6 +1296,16 @@ class Config:  # pylint: disable=too-many-instance-attributes
                     virtual=virtual, sensitive_mask=sensitive_mask
                 )
             elif (
+                isinstance(field_value, list)
+                and field_value
+                and all(isinstance(item, Config) for item in field_value)
+            ):
+                # configurations held in a list are rendered with the same options as this one
+                value = [
+                    item.to_tree(virtual=virtual, sensitive_mask=sensitive_mask)
+                    for item in field_value
+                ]
+            elif (
                 isinstance(field, Field)
                 and field.sensitive
                 and sensitive_mask is not None
